@@ -1,4 +1,5 @@
 import QProofs.C06
+import QProofs.Psd
 /-!
 # C06 — property theorems: composition implements quantum mechanics and is associative
 
@@ -688,6 +689,50 @@ example : ∀ st ∈ (forStates (1 : Rat) eps8 [(#v[#v[1/10]] : Mat Rat 1 1), #v
     st = Vec.zero ∨ TraceOne (1 : Rat) st :=
   post_states_normalised _ _ _ _ _
 
+
+/-! ### Born probabilities are non-negative -/
+section born
+open scoped ComplexOrder
+variable {d n : Nat}
+
+/-- the Hermitian matrix a real coefficient vector stands for in the matrix basis `B`: `Σ_α v_α B_α` -/
+noncomputable def matOf (B : Fin n → Matrix (Fin d) (Fin d) ℂ) (v : Vec ℝ n) : Matrix (Fin d) (Fin d) ℂ :=
+  ∑ α, ((v.get α : ℝ) : ℂ) • B α
+
+/-- in an orthonormal Hermitian basis (`tr(B_α B_β) = δ_αβ`) the Euclidean inner product of coefficient vectors is
+the Hilbert–Schmidt inner product of the matrices: `⟪p, r⟫ = tr(P R)` -/
+theorem trace_matOf_mul (B : Fin n → Matrix (Fin d) (Fin d) ℂ)
+    (horth : ∀ α β, (B α * B β).trace = if α = β then 1 else 0) (p r : Vec ℝ n) :
+    (matOf B p * matOf B r).trace = ((Vec.dot p r : ℝ) : ℂ) := by
+  simp only [matOf, Finset.sum_mul, Finset.mul_sum, trace_sum, smul_mul_assoc, mul_smul_comm, trace_smul, horth,
+    smul_eq_mul, mul_ite, mul_one, mul_zero, Finset.sum_ite_eq, Finset.mem_univ, if_true]
+  rw [Vec.dot_eq]
+  simp only [dotProduct, Vec.toV, Complex.ofReal_sum, Complex.ofReal_mul]
+  apply Finset.sum_congr rfl; intro α _
+  rw [Finset.sum_ite_eq']
+  simp [mul_comm]
+
+/-- C06 "a POVM on a state gives the Born-rule distribution (non-negative …)": if the effects `Π_x` and the state
+`ρ` are positive semidefinite (as matrices `Σ_α v_α B_α` in an orthonormal Hermitian basis of any dimension), every
+raw Born probability `⟪Π_x, ρ⟫` computed by `Povm∘State` is ≥ 0. -/
+theorem born_nonneg (B : Fin n → Matrix (Fin d) (Fin d) ℂ)
+    (horth : ∀ α β, (B α * B β).trace = if α = β then 1 else 0)
+    (vecs : List (Vec ℝ n)) (rho : Vec ℝ n)
+    (hP : ∀ v ∈ vecs, (matOf B v).PosSemidef) (hR : (matOf B rho).PosSemidef) :
+    ∀ q ∈ bornRaw vecs rho, 0 ≤ q := by
+  intro q hq
+  simp only [bornRaw, List.mem_map] at hq
+  obtain ⟨v, hv, rfl⟩ := hq
+  have h := QM.Psd.psd_trace_mul_nonneg (hP v hv) hR
+  rw [trace_matOf_mul B horth] at h
+  exact_mod_cast h
+
+end born
+
+/-- the orthonormality hypothesis of `born_nonneg` is satisfiable (1-dimensional system, basis `{1}`) -/
+example : ∀ α β : Fin 1, ((fun _ : Fin 1 => (1 : Matrix (Fin 1) (Fin 1) ℂ)) α *
+    (fun _ : Fin 1 => (1 : Matrix (Fin 1) (Fin 1) ℂ)) β).trace = if α = β then 1 else 0 := by
+  intro α β; simp [Subsingleton.elim α β]
 
 /-! ### non-vacuity: concrete instances of the hypotheses (1 qubit, normalised Pauli basis, `sd² = 2` replaced by
 the rational stand-in `sd = 1` on a 1-dimensional system where needed) -/
